@@ -24,7 +24,7 @@ def _plan(tier, seed):
 
 
 def required(tier, classes, records):
-    pats = list(TOPO_REQUIRED) + [("circular core", r"^circ\|")]
+    pats = list(TOPO_REQUIRED) + [("circular core", r"^circ\|"), ("non-orthogonal grid built by worker processes", r"nonorth.*\|np[2-9]"), ("orthogonal grid built by worker processes", r"\|orth\|.*\|np[2-9]")]
     if tier == "thorough":
         pats.append(("isolated X-point (TORPEX)", r"^torpex"))
     return need_classes(classes, pats)
